@@ -36,6 +36,64 @@ type soundCase struct {
 	// literal followed by one parameter that bears the NAME of a later parameter of the judged
 	// pattern; it reads that parameter and calls Next
 	SharedMW *sharedMW `json:"middleware_sharing_a_parameter_name,omitempty"`
+	// Entry: the API call that registers the judged handler. Middleware (Use true): "use",
+	// "route.all" (Route(p).All registers a prefix middleware). Route handlers (Use false): "get",
+	// "all", "add" (Add with several methods), "route.get", "route.add", "route.nested.get"
+	// (Route("/").Route(p).Get), "group.get", "group.all", "group.add" (on Group("") or Group("/")).
+	Entry string `json:"entry_point"`
+	// Method of the requests (one the entry point registers the handler for)
+	Method string `json:"request_method"`
+}
+
+// entryPoints of route handlers with the methods a request may use
+var handlerEntries = []struct {
+	Name    string
+	Methods []string
+}{
+	{"get", []string{"GET"}}, {"get", []string{"GET"}}, {"get", []string{"GET"}},
+	{"all", []string{"GET", "POST", "DELETE", "PATCH"}},
+	{"add", []string{"GET", "PUT"}},
+	{"route.get", []string{"GET"}}, {"route.add", []string{"POST", "GET"}}, {"route.nested.get", []string{"GET"}},
+	{"group.get", []string{"GET"}}, {"group.all", []string{"GET", "PUT", "HEAD"}}, {"group.add", []string{"DELETE", "GET"}},
+	{"slashgroup.all", []string{"GET", "POST"}},
+}
+
+// register performs the entry point's call on rt for pattern text pt.
+func (sc *soundCase) register(rt fiber.Router, pt string, h fiber.Handler) {
+	addMethods := func(name string) []string {
+		for _, en := range handlerEntries {
+			if en.Name == name {
+				return en.Methods
+			}
+		}
+		return []string{"GET"}
+	}
+	switch sc.Entry {
+	case "use":
+		rt.Use(pt, h)
+	case "route.all":
+		rt.Route(pt).All(h)
+	case "all":
+		rt.All(pt, h)
+	case "add":
+		rt.Add(addMethods("add"), pt, h)
+	case "route.get":
+		rt.Route(pt).Get(h)
+	case "route.add":
+		rt.Route(pt).Add(addMethods("route.add"), h)
+	case "route.nested.get":
+		rt.Route("/").Route(pt).Get(h)
+	case "group.get":
+		rt.Group("").Get(pt, h)
+	case "group.all":
+		rt.Group("").All(pt, h)
+	case "group.add":
+		rt.Group("").Add(addMethods("group.add"), pt, h)
+	case "slashgroup.all":
+		rt.Group("/").All(pt, h)
+	default:
+		rt.Get(pt, h)
+	}
 }
 
 type sharedMW struct {
@@ -67,7 +125,7 @@ func (sc *soundCase) literalTwin(r *gen.Rand) *soundCase {
 		return nil
 	}
 	k := gen.Pick(r, idx)
-	tw := &soundCase{Use: sc.Use, Cfg: sc.Cfg, Ovr: sc.Ovr}
+	tw := &soundCase{Use: sc.Use, Cfg: sc.Cfg, Ovr: sc.Ovr, Entry: sc.Entry, Method: sc.Method}
 	for i, t := range sc.Pat.Toks {
 		if i == k {
 			lit := ""
@@ -96,6 +154,14 @@ var litsAfterParam = []string{"/", "/a", "/books", "-", ".", "-x", ".json", "/Ed
 func genSoundCase(r *gen.Rand) *soundCase {
 	sc := &soundCase{Cfg: Cfg{CaseSensitive: r.Bool(), Strict: r.Bool(), Unescape: r.Chance(1, 3), CustomCtx: r.Chance(1, 3)}, Use: r.Chance(1, 4)}
 	sc.Ovr = r.Chance(1, 4)
+	sc.Entry, sc.Method = "use", gen.Pick(r, []string{"GET", "GET", "POST"})
+	if sc.Use && r.Chance(1, 4) {
+		sc.Entry = "route.all"
+	}
+	if !sc.Use {
+		en := gen.Pick(r, handlerEntries)
+		sc.Entry, sc.Method = en.Name, gen.Pick(r, en.Methods)
+	}
 	n := r.Range(1, 4) // number of params
 	names := []string{"id", "name", "p", "q", "Key", "x1"}
 	gen.Shuffle(r, names)
@@ -318,6 +384,9 @@ func runSound(e *ev.Env) {
 			p := sc.Pat.fill(vals)
 			if sc.Use && r.Bool() {
 				p += gen.Pick(r, []string{"/more", "/", "x", "/a/b"})
+			} else if !sc.Use && r.Chance(1, 8) {
+				// the path goes on behind what the pattern describes
+				p += gen.Pick(r, []string{"/more", "/a/b", "/7"})
 			}
 			switch r.Intn(12) {
 			case 0:
@@ -373,6 +442,17 @@ func runSound(e *ev.Env) {
 }
 
 func checkSound(e *ev.Env, c *ev.Case, sc *soundCase, paths []string) {
+	if sc.Entry == "" { // corpus cases
+		sc.Entry = "get"
+		if sc.Use {
+			sc.Entry = "use"
+		}
+	}
+	method := sc.Method
+	if method == "" {
+		method = "GET"
+	}
+	e.Stat("entry_"+sc.Entry, 1)
 	app := sc.Cfg.NewApp()
 	registerAll := func(a *fiber.App) {
 		a.RegisterCustomConstraint(evenConstraint{})
@@ -457,13 +537,7 @@ func checkSound(e *ev.Env, c *ev.Case, sc *soundCase, paths []string) {
 	text := sc.Pat.String()
 	var d *drive.Direct
 	if e.Guard(c, "sound|register", text, func() {
-		reg := func(pt string, hh fiber.Handler) {
-			if sc.Use {
-				target.Use(pt, hh)
-			} else {
-				target.Get(pt, hh)
-			}
-		}
+		reg := func(pt string, hh fiber.Handler) { sc.register(target, pt, hh) }
 		pass := func(cx fiber.Ctx) error { return cx.Next() }
 		if sc.SharedMW != nil {
 			name := sc.SharedMW.Name
@@ -508,12 +582,12 @@ func checkSound(e *ev.Env, c *ev.Case, sc *soundCase, paths []string) {
 		}
 		obs = soundObs{rot: pi}
 		var resp *drive.Resp
-		if e.Guard(c, "sound|dispatch", map[string]any{"pattern": text, "path": p}, func() { resp = do(d, "GET", p) }) {
+		if e.Guard(c, "sound|dispatch", map[string]any{"pattern": text, "path": p}, func() { resp = do(d, method, p) }) {
 			continue
 		}
 		e.Eval(1)
 		detail := func() map[string]any {
-			m := map[string]any{"pattern": text, "use": sc.Use, "cfg": sc.Cfg.String(), "path": p, "params": obs.vals,
+			m := map[string]any{"pattern": text, "use": sc.Use, "entry_point": sc.Entry, "method": method, "cfg": sc.Cfg.String(), "path": p, "params": obs.vals,
 				"ctx_path": obs.path, "status": resp.Status, "builtin_names_overridden": sc.Ovr}
 			if sc.Mount != nil {
 				m["mount"] = sc.Mount
@@ -614,6 +688,9 @@ func checkSound(e *ev.Env, c *ev.Case, sc *soundCase, paths []string) {
 			}
 		}
 		if !ok {
+			if sc.Entry != "get" && sc.Entry != "use" {
+				class += "+registered-through-" + sc.Entry
+			}
 			e.Violation(c, "sound|params-do-not-reproduce-path|"+class,
 				fmt.Sprintf("substituting Params into %q gives %q, request path %q", text, sc.candidates(vals), p), detail())
 		}
